@@ -42,11 +42,25 @@ const (
 	tkRP
 )
 
+// c03names: operand names whose printed form depends on the quoting helpers.
+var c03names = []struct{ spell, val string }{
+	{`"or"`, "or"}, {`"and"`, "and"}, {`"AND"`, "AND"}, {`"Or"`, "Or"}, {`"true"`, "true"}, {`"FALSE"`, "FALSE"}, {`"not"`, "not"}, {`"in"`, "in"}, {`"select"`, "select"}, {`"Name"`, "Name"}, {`"KEY"`, "KEY"},
+	{`"a\\"`, `a\`}, {`"b\\c"`, `b\c`}, {`"q\"t"`, `q"t`}, {`"sp ace"`, "sp ace"}, {`"1st"`, "1st"}, {`"a.b.c.d"`, "a.b.c.d"}, {`"é"`, "é"}, {`"x-y"`, "x-y"}, {`"a/b"`, "a/b"},
+}
+
 type c03tok struct {
 	kind int
 	text string // variable name (optionally with a ::type suffix) / regex source / sign of a group
 	op   c03op
 	sign string // tkNegVar: "-" (default) or "+"
+	val  string // the name the operand denotes, when it is not spelled plainly
+}
+
+func (t c03tok) name() string {
+	if t.val != "" {
+		return t.val
+	}
+	return t.text
 }
 
 func (t c03tok) signText() string {
@@ -74,9 +88,9 @@ func (p *c03ref) atom() string {
 	p.pos++
 	switch t.kind {
 	case tkVar:
-		return t.text
+		return t.name()
 	case tkNegVar:
-		return "(" + signFactor(t.signText()) + " * " + t.text + ")"
+		return "(" + signFactor(t.signText()) + " * " + t.name() + ")"
 	case tkRegex:
 		return "/" + t.text + "/"
 	case tkLP:
@@ -615,6 +629,19 @@ func checkC03(c *Ctx) (string, bool, []string) {
 			}
 		}
 		toks := buildChainX(ops, closeOrder(parens), neg, np, plus, cast)
+		// some operands are named like operators, keywords or need escaping
+		for ti := range toks {
+			if (toks[ti].kind == tkVar || toks[ti].kind == tkNegVar) && rg.P(0.08) {
+				nm := c03names[rg.Intn(len(c03names))]
+				suffix := ""
+				if k := strings.Index(toks[ti].text, "::"); k >= 0 {
+					suffix = toks[ti].text[k:]
+				}
+				toks[ti].text = nm.spell + suffix
+				toks[ti].val = nm.val + suffix
+				local["odd-operand-names"]++
+			}
+		}
 		c03One(c, toks, false, local)
 		local["random-chains"]++
 		r.DistinctStr(renderC03(toks, false))
